@@ -28,7 +28,7 @@ for i in ids:
     if r.returncode == 0 and "with conflicts" not in r.stdout:
         applied.append(i)
     else:
-        sh("git -C %s checkout -- . ; git -C %s reset -q" % (WT, WT))
+        sh("git -C %s reset -q --hard ; git -C %s clean -fdq -e _build" % (WT, WT))
         # re-apply what was applied so far (a failed 3-way may leave the tree dirty)
         for j in applied:
             q = os.path.join(ROOT, "seeded", j, "patch.diff")
